@@ -37,7 +37,11 @@ PROP = {
             "(end-to-end cases) or the call is on the public Bm25Weight API with a field-norm id in 0..255; distinct by hash of the Gallina case term. "
             "Corpora: 1-700 documents, field lengths at/around every reachable quantisation boundary, 1-6 segments, one third with deletes; "
             "queries: term, phrase, boost, const-score, boolean must/should/must_not mixes, disjunction-max with tie breaker, depth <= 3; "
-            "Bm25Weight is driven directly over all 256 field-norm ids",
+            "Bm25Weight is driven directly over all 256 field-norm ids; "
+            "one segment of ~9000 small documents per run (dis-max / boolean unions whose matches lie in every 4096-document window of the union scorers, "
+            "each document checked through the non-pruning collector, explain and the model); "
+            "corpora with 2-3 text fields of very different length distributions and conjunctions of Must term clauses across fields "
+            "(TopDocs with K = all, 1, 3, 10 vs the scoring collector vs explain vs per-field Flocq evaluation of every clause)",
     "trusted_base": COMMON_TB + [
         "Flocq 4.1.0 (IEEE754.BinarySingleNaN: Bplus/Bminus/Bmult/Bdiv/binary_normalize, mode_NE) for the binary32 model only",
         "`ln` is not modelled: a Section variable with the contract (monotone, ln 1 = 0); idf values reach Coq as an oracle table checked against f64 ln",
